@@ -34,7 +34,7 @@ impl Case {
         let steps = (self.off.unsigned_abs() as usize).div_ceil(self.a_b.max(1));
         jo! {"backend" => BE_NAME, "op" => self.op, "n" => self.n, "a_base2k" => self.a_b, "res_base2k" => self.r_b, "a_size" => self.a_size,
         "res_size" => self.r_size, "offset" => self.off, "k" => self.off.unsigned_abs(), "steps" => steps, "a_bits" => a_bits, "res_bits" => r_bits,
-        "cross" => (self.a_b != self.r_b), "truncating" => (a_bits as i64 - self.off > r_bits as i64), "cols" => self.cols, "a_col" => self.a_col, "res_col" => self.r_col,
+        "cross" => self.a_b != self.r_b, "truncating" => a_bits as i64 - self.off > r_bits as i64, "cols" => self.cols, "a_col" => self.a_col, "res_col" => self.r_col,
         "class" => self.class, "inplace" => self.inplace, "big" => self.big}
     }
     fn key(&self) -> String {
